@@ -95,15 +95,24 @@ def assignment_from(inputs, conc):
 
 
 def _eval_ctx(asg):
-    """extend an input assignment to the root/trig/exp symbols introduced during the symbolic run"""
+    """extend an input assignment to the root/trig/exp/contract symbols introduced during the symbolic run (two passes: the
+    definitions may refer to each other)"""
     full = dict(asg)
     c = alg.CTX[0]
-    for s, rad in c.sqrt.items():
-        full[s] = sp.sqrt(rad.subs(full))
-    for cs, sn, a in c.trig:
-        full[cs] = sp.cos(a.subs(full)); full[sn] = sp.sin(a.subs(full))
-    for s, a in c.exp.items():
-        full[s] = sp.exp(a.subs(full))
+    for _ in range(3):
+        for s, (fname, arg, ax) in c.other.items():
+            if fname == 'expit':
+                full[s] = 1 / (1 + sp.exp(-arg.subs(full)))
+            elif fname == 'softplus':
+                full[s] = sp.log(1 + sp.exp(arg.subs(full)))
+            else:
+                raise ValueError(f'symbol {s} of the assumed contract {fname} has no closed form: cross-check skipped')
+        for s, rad in c.sqrt.items():
+            full[s] = sp.sqrt(rad.subs(full))
+        for cs, sn, a in c.trig:
+            full[cs] = sp.cos(a.subs(full)); full[sn] = sp.sin(a.subs(full))
+        for s, a in c.exp.items():
+            full[s] = sp.exp(a.subs(full))
     return full
 
 
@@ -126,9 +135,53 @@ def native_check(contract, conc, rtol=RTOL):
     failed = []
     for cl in contract.post(conc, res):
         name, lhs, rhs = cl[0], cl[1], cl[2]
+        if len(cl) > 3 and cl[3] != '==':
+            a, _ = _flat(lhs); b, _ = _flat(rhs)
+            if len(b) == 1 and len(a) > 1:
+                b = b * len(a)
+            import operator
+            f = {'<': operator.lt, '<=': operator.le, '>': operator.gt, '>=': operator.ge, '!=': operator.ne}[cl[3]]
+            if not all(f(float(np.real(x)), float(np.real(y))) for x, y in zip(a, b)):
+                failed.append(name)
+            continue
         if not native_close(lhs, rhs, rtol):
             failed.append(name)
     return (not failed), failed, repr(jsonable(_flat(res)[0][:8]))[:300]
+
+
+def _inequality(contract, oid, funcs, cl, hyps, inputs, rng, shape):
+    """inequality clause (lhs op rhs, elementwise) over the reals: QF_NRA with the axioms of the context symbols"""
+    name, lhs, rhs, op = cl[0], cl[1], cl[2], cl[3]
+    a, sa = _flat(lhs); b, sb = _flat(rhs)
+    if len(b) == 1 and len(a) > 1:
+        b = b * len(a)
+    t1 = time.time()
+    tot = 0.0
+    for k, (x, y) in enumerate(zip(a, b)):
+        x = x if isinstance(x, sp.Basic) else alg.exact(x); y = y if isinstance(y, sp.Basic) else alg.exact(y)
+        xr, xi = sp.expand(x).as_real_imag(); yr, yi = sp.expand(y).as_real_imag()
+        try:
+            r, asg, dt = alg.nra_solve(hyps, (op, alg.reduce_axioms(xr) if not xr.is_number else xr, yr))
+        except Unsupported as ex:
+            return ob(oid, 'undecided', functions=funcs, tier='P', backend='z3-nra', detail=f'engine: {ex}', time_s=time.time() - t1)
+        tot += dt
+        if r == 'unsat':
+            continue
+        if r == 'sat':
+            in_syms = symbols_of(inputs)
+            a2 = {s_: asg.get(s_, sp.Integer(0)) for s_ in in_syms}
+            try:
+                conc = concretize(inputs, a2)
+                ok, failed, info = native_check(contract, conc)
+            except Exception as ex:
+                ok, failed, info = True, [], f'native evaluation failed: {ex}'
+            if not ok:
+                return ob(oid, 'refuted', functions=funcs, tier='P', backend='z3-nra', time_s=tot, witness=jsonable(conc),
+                          native=dict(confirmed=True, failed=failed, info=info), detail=f'entry {k}: counter-model of the real-arithmetic obligation, confirmed natively')
+            return ob(oid, 'undecided', functions=funcs, tier='P', backend='z3-nra', time_s=tot,
+                      detail=f'entry {k}: z3 returned a real-arithmetic model that the native run does not confirm (axioms of transcendental symbols are weaker than the functions): undecided')
+        return ob(oid, 'undecided', functions=funcs, tier='P', backend='z3-nra', time_s=tot, detail=f'entry {k}: solver unknown/timeout')
+    return ob(oid, 'proved', functions=funcs, tier='P', backend='z3-nra', time_s=tot, entries=len(a))
 
 
 def _rand_assign(rng, syms, k):
@@ -172,10 +225,14 @@ def verify_identity(contract, shape, tier, rng, crosscheck=2, bounded_samples=0)
                    witness=jsonable(conc) if not ok else None, native=dict(confirmed=not ok, failed=failed, info=info),
                    detail=f'the real function raises: {type(ex).__name__}: {ex}\n{tb}')]
     t_run = time.time() - t0
+    hyps = list(contract.assume(inputs)) if hasattr(contract, 'assume') else []
     for cl in clauses:
         name, lhs, rhs = cl[0], cl[1], cl[2]
         oid = f'{base}.{name}[{sh}]'
         t1 = time.time()
+        if len(cl) > 3 and cl[3] != '==':
+            out.append(_inequality(contract, oid, funcs, cl, hyps, inputs, rng, shape))
+            continue
         a, sa = _flat(lhs); b, sb = _flat(rhs)
         if sa != sb or len(a) != len(b):
             conc = contract.sample(rng, shape)
@@ -240,7 +297,12 @@ def verify_identity(contract, shape, tier, rng, crosscheck=2, bounded_samples=0)
                                   detail='symbolic result differs from native execution (engine unsound here)'))
                     break
                 nx += 1
-            except (TypeError, ValueError) as ex:
+            except ValueError as ex:
+                if 'cross-check skipped' in str(ex):
+                    break
+                out.append(ob(f'{base}.crosscheck[{sh}]', 'fault', functions=funcs, tier='P', detail=f'cross-check evaluation failed: {ex}'))
+                break
+            except TypeError as ex:
                 out.append(ob(f'{base}.crosscheck[{sh}]', 'fault', functions=funcs, tier='P', detail=f'cross-check evaluation failed: {ex}'))
                 break
     out.append(ob(f'{base}.meta[{sh}]', 'meta', functions=funcs, tier='P', paths=1, explore_s=round(t_run, 3), crosscheck_inputs=nx, backend='-',
